@@ -300,6 +300,7 @@ GoalTailRemove(st, p) ==
       /\ Cardinality(Q) >= 3 /\ Cardinality(R) = 1 /\ R = LastArrived(Q)
       /\ \E u \in Q \ R : \A t \in R : u.n > t.n
       /\ \A t \in Q : \E i \in DOMAIN arr : arr[i] = t
+\* <goal-holefilter>  (checks/C20.py replaces this block by a stub in the -coverage run: TLC's cost model exhausts the heap on it)
 \* "holefilter": a reorg whose re-injection leaves a hole in a pending list while the balance it restores makes a pending
 \* transaction ABOVE the hole unpayable, with followers, and a payable one in between.
 GoalHoleFilter(st, r) ==
@@ -312,6 +313,7 @@ GoalHoleFilter(st, r) ==
              l2  == l1 \ (dr \cup inv) IN
          /\ dr # {} /\ inv # {} /\ l2 # {} /\ At(l2, s1.sn[a]) # {}
          /\ Run(l2, Min(NoncesOf(l2))) # l2
+\* </goal-holefilter>
 
 \* one submission (split mode): the transaction is added under the lock, promotion is requested
 Add(t, local) ==
